@@ -1,7 +1,7 @@
 #!/venv/bin/python
 """Runs the mutation self-test matrix and writes selftest/kill_matrix.json (used by bin/design_tables.py).
 
-usage: kill_matrix.py [--lanes N] [--only catalogue|reverts|seeds|own] [--props C01,C02]
+usage: kill_matrix.py [--lanes N] [--only catalogue|reverts|seeds|neutral|own] [--props C01,C02]
 Every (change, property) pair runs `selftest/mutate.py <change> <property>` (scratch copy of /repo, quick tier)."""
 import json, os, pathlib, re, subprocess, sys, time
 from concurrent.futures import ThreadPoolExecutor
@@ -40,6 +40,10 @@ def pairs(only, props):
             if meta.get("obsolete"):
                 continue
             out.append(("seeded/" + d.name, meta["breaks"], "independent"))
+    if only in (None, "neutral"):
+        for d in sorted((V / "seeded").glob("neutral-*")):
+            meta = json.loads((d / "meta.json").read_text())
+            out += [("seeded/" + d.name, p, "neutral") for p in meta["must_not_be_flagged_by"]]
     if only in (None, "own"):
         for f in sorted((V / "selftest" / "patches").glob("c[0-9][0-9]-*.diff")):
             out.append(("selftest/patches/" + f.name, f.name[:3].upper(), "own"))
